@@ -27,7 +27,10 @@ Cke == Concat([k \in 1..5 |-> << [t |-> "ClientKeyExchange", kind |-> "Unknown",
 Fin == [k \in 1..5 |-> [t |-> "Finished", data |-> Blobs[k]]]
 BigCh == << [t |-> "ClientHello", ver |-> 771, random |-> R32, sid |-> None, ciphers |-> Pairs(Fill(4, 65534), 0, 65534), comp |-> <<0>>, ext |-> None],
             [t |-> "ClientHello", ver |-> 771, random |-> R32, sid |-> Some(Fill(3, 32)), ciphers |-> <<47>>, comp |-> <<0>>, ext |-> Some(Fill(8, 65535))] >>
-ASSUME TLCSet(2, MapSeq(ChIx, MkCh) \o MapSeq(ShIx, MkSh) \o D18 \o Cke \o Fin \o << [t |-> "HelloRequest"] >> \o BigCh)
+(* every body size from 979 to 1100 bytes (whatever buffer an implementation may pick by estimating sizes) *)
+SizeCh == [n \in 1..46 |-> [t |-> "ClientHello", ver |-> 771, random |-> R32, sid |-> IF n % 2 = 0 THEN None ELSE Some(<<7>>),
+                             ciphers |-> [k \in 1..(469 + n) |-> k], comp |-> <<0>>, ext |-> IF n % 3 = 0 THEN Some(<<>>) ELSE None]]
+ASSUME TLCSet(2, MapSeq(ChIx, MkCh) \o MapSeq(ShIx, MkSh) \o D18 \o Cke \o Fin \o << [t |-> "HelloRequest"] >> \o SizeCh \o BigCh)
 HsVals == TLCGet(2)
 NH == Len(HsVals)
 
@@ -74,7 +77,11 @@ UnsupportedRec == Concat([q \in 1..Len(Unsupported) |->
 UnsupportedExt == << [t |-> "Padding", tag |-> 21, data |-> <<0>>], [t |-> "Heartbeat", tag |-> 15, v |-> 1], [t |-> "Unknown", tag |-> 99, ty |-> 99, data |-> <<>>] >>
 
 NBase == NH + Len(RecVals) + Len(ExtVals) + Len(Unsupported) + Len(UnsupportedExt) + 1 + Len(FromBytes)
-N == NBase + Len(UnsupportedRec)
+(* flights: records written one after the other through the same serializer (more than 64 KiB in total) *)
+BigRec(k) == [ct |-> 22, ver |-> 771, len |-> 0,
+              msgs |-> <<[t |-> "hs", m |-> [t |-> "ClientHello", ver |-> 771, random |-> R32, sid |-> None, ciphers |-> [c \in 1..(5000 + k) |-> c], comp |-> <<0>>, ext |-> None]]>>]
+Flights == << [recs |-> <<RecAll[1], RecAll[3]>>], [recs |-> [k \in 1..8 |-> BigRec(k)] \o <<RecAll[3], RecAll[1]>>] >>
+N == NBase + Len(UnsupportedRec) + Len(Flights)
 Case(i) ==
   IF i <= NH THEN [kind |-> "hs", v |-> HsVals[i]]
   ELSE IF i <= NH + Len(RecVals) THEN [kind |-> "record", v |-> RecVals[i - NH]]
@@ -84,7 +91,8 @@ Case(i) ==
        THEN [kind |-> "unsupported_ext", v |-> UnsupportedExt[i - NH - Len(RecVals) - Len(ExtVals) - Len(Unsupported)]]
   ELSE IF i = NH + Len(RecVals) + Len(ExtVals) + Len(Unsupported) + Len(UnsupportedExt) + 1 THEN [kind |-> "ccs_msg", v |-> [t |-> "ccs"]]
   ELSE IF i <= NBase THEN [kind |-> "from_bytes", v |-> FromBytes[i - (NH + Len(RecVals) + Len(ExtVals) + Len(Unsupported) + Len(UnsupportedExt) + 1)]]
-  ELSE [kind |-> "unsupported_record", v |-> UnsupportedRec[i - NBase]]
+  ELSE IF i <= NBase + Len(UnsupportedRec) THEN [kind |-> "unsupported_record", v |-> UnsupportedRec[i - NBase]]
+  ELSE [kind |-> "flight", v |-> Flights[i - NBase - Len(UnsupportedRec)]]
 
 VARIABLE i
 Init == i = Chunk + 1 /\ i <= N
@@ -109,6 +117,7 @@ Expect(c) ==
     [] c.kind = "exts" -> [norm |-> c.v, ser |-> BE16(Len(EncExtList(c.v))) \o EncExtList(c.v)]
     [] c.kind = "ccs_msg" -> [norm |-> <<[t |-> "ccs"]>>, ser |-> <<1>>]
     [] c.kind = "from_bytes" -> [norm |-> [j \in 1..Len(c.v.msgs) |-> NormMsg(c.v.msgs[j])], ser |-> SerRecord([ct |-> 22, ver |-> 771, msgs |-> c.v.msgs])]
+    [] c.kind = "flight" -> [norm |-> <<>>, ser |-> SerFlight(c.v.recs)]
     [] OTHER -> [norm |-> <<>>, ser |-> <<>>]
 EmitCase == LET c == Case(i) IN EmitLine([id |-> i, kind |-> c.kind, v |-> c.v, norm |-> Expect(c).norm, ser |-> Expect(c).ser])
 =============================================================================
